@@ -127,6 +127,10 @@ type c18apiCtx struct {
 	// they are an argument of
 	valueRefs map[*types.Func][]c18valueRef
 	entryLk   map[*types.Func]int // cache of entryLock: 1 locked, 2 not
+	// dependency inversion: Lock() { s.applyToMutex(cluster.Mutex.Lock) } — the lock / unlock function hands the
+	// method expression to an applicator that calls its func parameter on the mutex
+	applicator map[*types.Func]*types.Func
+	forceLk    map[*types.Func]bool // functions re-analysed as entered with the lock held
 }
 
 // c18valueRef is one use of a function as a value.
@@ -275,7 +279,7 @@ func c18Admin(c *core.Ctx) {
 	}
 	a := &c18apiCtx{c: c, pkg: pkg, decls: map[*types.Func]*ast.FuncDecl{}, sums: map[*types.Func]*c18sum{},
 		inprog: map[*types.Func]bool{}, direct: map[*ast.CallExpr]*c18direct{}, lockFn: map[*types.Func]bool{}, unlkFn: map[*types.Func]bool{},
-		hdrKey: "X-Config-Version", entryLk: map[*types.Func]int{}}
+		hdrKey: "X-Config-Version", entryLk: map[*types.Func]int{}, applicator: map[*types.Func]*types.Func{}, forceLk: map[*types.Func]bool{}}
 	info := pkg.TypesInfo
 	if k, ok := pkg.Types.Scope().Lookup("ConfigVersionKey").(*types.Const); ok {
 		if s, err := strconv.Unquote(k.Val().ExactString()); err == nil {
@@ -335,6 +339,33 @@ func c18Admin(c *core.Ctx) {
 	}
 	sort.Slice(order, func(i, j int) bool { return a.decls[order[i]].Pos() < a.decls[order[j]].Pos() })
 	a.collectValueRefs()
+	// lock / unlock functions by dependency inversion
+	for _, fo := range order {
+		for _, call := range calls(a.decls[fo].Body, true) {
+			g := a.calleeOf(call)
+			if g == nil || g == fo {
+				continue
+			}
+			gd := a.decls[g]
+			if gd == nil {
+				continue
+			}
+			for i, arg := range call.Args {
+				m := c18mutexMethodExpr(info, arg)
+				if m == "" || !c18callsParam(info, gd, i) {
+					continue
+				}
+				switch m {
+				case "Lock":
+					a.lockFn[fo] = true
+					a.applicator[fo] = g
+				case "Unlock":
+					a.unlkFn[fo] = true
+					a.applicator[fo] = g
+				}
+			}
+		}
+	}
 
 	// vacuity: the subject writes known today
 	nObj, nVer, nMem, nOther := 0, 0, 0, 0
@@ -738,6 +769,9 @@ func (a *c18apiCtx) summary(fo *types.Func) *c18sum {
 		if g.noreturn {
 			st.Set(c18evDead, flow.True)
 			return
+		}
+		if g.wrapParam >= 0 && g.wrapParam < len(call.Args) && c18mutexMethodExpr(info, call.Args[g.wrapParam]) != "" {
+			return // applyToMutex(cluster.Mutex.Lock): modelled through the lock / unlock function that makes this call
 		}
 		if g.wrapParam >= 0 {
 			// withLock(func() {..}): the closure is the critical section; it is analysed below with
@@ -1215,6 +1249,9 @@ func c18returnedLit(fd *ast.FuncDecl) *ast.FuncLit {
 // and every such use hands it to a decorator that runs its parameter with the lock held
 // (`Handler: s.locked(s.createObject)` at every registration site).
 func (a *c18apiCtx) entryLock(fo *types.Func) bool {
+	if a.forceLk[fo] {
+		return true
+	}
 	if v, ok := a.entryLk[fo]; ok {
 		return v == 1
 	}
@@ -1395,9 +1432,29 @@ func (a *c18apiCtx) lockRules(rel []*types.Func, escapes, external map[*types.Fu
 			continue
 		}
 		var acq []*ast.CallExpr
-		for _, call := range s.bodyCalls() {
-			if c18ifaceCall(a.pkg.TypesInfo, call, "Mutex") == "Lock" {
-				acq = append(acq, call)
+		evAcq := c18evMxL
+		consL := s.cons
+		if g := a.applicator[fo]; g != nil {
+			// the acquisition is the applicator's call of its func parameter
+			gs := a.summary(g)
+			if gs == nil || gs.res == nil || s.noreturn {
+				c.Undecide("R-C18-3", consL+"|returns only with the cluster mutex acquired", pos(c, s.fd.Body), "cannot analyse "+g.Name()+", which applies the lock operation")
+				continue
+			}
+			s = gs
+			evAcq = c18evFn1
+			for _, call := range s.bodyCalls() {
+				if v, ok := s.f.Callee(call).(*types.Var); ok {
+					if _, isParam := c18paramIndex(s.f)[v]; isParam {
+						acq = append(acq, call)
+					}
+				}
+			}
+		} else {
+			for _, call := range s.bodyCalls() {
+				if c18ifaceCall(a.pkg.TypesInfo, call, "Mutex") == "Lock" {
+					acq = append(acq, call)
+				}
 			}
 		}
 		var keys []string
@@ -1415,7 +1472,7 @@ func (a *c18apiCtx) lockRules(rel []*types.Func, escapes, external map[*types.Fu
 			}
 		}
 		if undecided {
-			c.Undecide("R-C18-3", s.cons+"|returns only with the cluster mutex acquired", pos(c, s.fd.Body), "cannot tell where the result of Mutex.Lock goes")
+			c.Undecide("R-C18-3", consL+"|returns only with the cluster mutex acquired", pos(c, s.fd.Body), "cannot tell where the result of Mutex.Lock goes")
 			continue
 		}
 		var bad *flow.State
@@ -1440,19 +1497,19 @@ func (a *c18apiCtx) lockRules(rel []*types.Func, escapes, external map[*types.Fu
 						direct = true
 					}
 				}
-				if direct && ex.State.Is(c18evMxL, flow.True) {
+				if direct && ex.State.Is(evAcq, flow.True) {
 					continue
 				}
 				if r != nil && c18nilOf(s.f, ex.State, r) == flow.False {
 					continue // reports a failure
 				}
 			}
-			if (!ok || !ex.State.Is(c18evMxL, flow.True)) && bad == nil {
+			if (!ok || !ex.State.Is(evAcq, flow.True)) && bad == nil {
 				bad = ex.State
 			}
 		}
-		c.RequireCount("R-C18-3", "returning exits of "+s.cons, n, 1)
-		c.Check(bad == nil, "R-C18-3", s.cons+"|returns only with the cluster mutex acquired", pos(c, s.fd.Body),
+		c.RequireCount("R-C18-3", "returning exits of "+consL, n, 1)
+		c.Check(bad == nil, "R-C18-3", consL+"|returns only with the cluster mutex acquired", pos(c, s.fd.Body),
 			sprintf("%d returning exit state(s): cluster.Mutex.Lock was called and its error is nil (or the error is what is returned)", n),
 			fo.Name()+" can return although cluster.Mutex.Lock failed (timeout, etcd error) or was not called: the handler runs its critical section without the lock", witness(bad)...)
 	}
@@ -1463,12 +1520,22 @@ func (a *c18apiCtx) lockRules(rel []*types.Func, escapes, external map[*types.Fu
 		}
 		var bad *flow.State
 		n := 0
+		evRel := c18evMxU
+		if g := a.applicator[fo]; g != nil {
+			if gs := a.summary(g); gs != nil && gs.res != nil && !s.noreturn {
+				s0 := s
+				s = gs
+				s.cons = s0.cons
+				defer func(gs *c18sum, cons string) { gs.cons = cons }(gs, declName(a.pkg, gs.fd))
+				evRel = c18evFn1
+			}
+		}
 		for _, ex := range s.res.Exits {
 			if ex.Kind != flow.ExitReturn || !c18live(ex.State) {
 				continue
 			}
 			n++
-			if !ex.State.Is(c18evMxU, flow.True) && bad == nil {
+			if !ex.State.Is(evRel, flow.True) && bad == nil {
 				bad = ex.State
 			}
 		}
@@ -1604,7 +1671,7 @@ func (a *c18apiCtx) versionRules(rel []*types.Func, escapes map[*types.Func]bool
 			continue
 		}
 		handlers++
-		a.handlerRules(s, roles[fo])
+		a.handlerRules(a.delegated(s), roles[fo])
 	}
 	c.RequireCount("R-C18-4", "functions writing the config version key", verWriters, 1)
 	c.Count("R-C18-4:functions setting X-Config-Version after an upgrade", hdrSetters)
@@ -2112,4 +2179,147 @@ func (a *c18apiCtx) bareUses(fo *types.Func) string {
 		}
 	}
 	return out
+}
+
+// c18mutexMethodExpr returns "Lock" / "Unlock" when e is the method expression cluster.Mutex.Lock / .Unlock.
+func c18mutexMethodExpr(info *types.Info, e ast.Expr) string {
+	sel, ok := ast.Unparen(e).(*ast.SelectorExpr)
+	if !ok {
+		return ""
+	}
+	sl := info.Selections[sel]
+	if sl == nil || sl.Kind() != types.MethodExpr {
+		return ""
+	}
+	fo, ok := sl.Obj().(*types.Func)
+	if !ok {
+		return ""
+	}
+	rt := sl.Recv()
+	if p, isPtr := rt.(*types.Pointer); isPtr {
+		rt = p.Elem()
+	}
+	n, ok := rt.(*types.Named)
+	if !ok || n.Obj().Pkg() == nil || n.Obj().Pkg().Path() != Mod+c18cl || n.Obj().Name() != "Mutex" {
+		return ""
+	}
+	if fo.Name() == "Lock" || fo.Name() == "Unlock" {
+		return fo.Name()
+	}
+	return ""
+}
+
+// c18callsParam reports whether fd calls its i-th parameter.
+func c18callsParam(info *types.Info, fd *ast.FuncDecl, i int) bool {
+	var p types.Object
+	k := 0
+	for _, fld := range fd.Type.Params.List {
+		for _, n := range fld.Names {
+			if k == i {
+				p = info.Defs[n]
+			}
+			k++
+		}
+		if len(fld.Names) == 0 {
+			k++
+		}
+	}
+	if p == nil {
+		return false
+	}
+	for _, call := range calls(fd.Body, true) {
+		if id, ok := ast.Unparen(call.Fun).(*ast.Ident); ok && info.Uses[id] == p {
+			return true
+		}
+	}
+	return false
+}
+
+// delegated: a handler that keeps parsing and locking and hands its critical section to a helper
+// (createObject → createObjectLocked(w, r, spec), called last, with the lock held at every call site of the
+// helper): the handler obligations are judged on the helper analysed as entered with the lock held, together
+// with the handler's own earlier exits. Anything else is returned unchanged.
+func (a *c18apiCtx) delegated(s *c18sum) *c18sum {
+	if s == nil || s.res == nil || len(s.fd.Body.List) == 0 {
+		return s
+	}
+	nonU := false
+	for _, ex := range s.res.Exits {
+		if ex.Kind == flow.ExitReturn && c18live(ex.State) && ex.State.Is(c18evNonU, flow.True) {
+			nonU = true
+		}
+	}
+	if !nonU {
+		return s
+	}
+	tail := s.fd.Body.List[len(s.fd.Body.List)-1]
+	if r, ok := tail.(*ast.ReturnStmt); ok && len(r.Results) == 0 && len(s.fd.Body.List) > 1 {
+		tail = s.fd.Body.List[len(s.fd.Body.List)-2]
+	}
+	es, ok := tail.(*ast.ExprStmt)
+	if !ok {
+		return s
+	}
+	call, ok := ast.Unparen(es.X).(*ast.CallExpr)
+	if !ok {
+		return s
+	}
+	g := a.calleeOf(call)
+	if g == nil || g == s.fo || a.decls[g] == nil || len(a.valueRefs[g]) > 0 {
+		return s
+	}
+	gs := a.sums[g]
+	if gs == nil || !(gs.obj < 0 || gs.ver < 0 || gs.errMixed) {
+		return s
+	}
+	// every call of the helper in the package is made with the lock held
+	sitesSeen := 0
+	for _, t := range a.sums {
+		if t == nil {
+			continue
+		}
+		for _, site := range t.sites {
+			if a.calleeOf(site.call) != g {
+				continue
+			}
+			sitesSeen++
+			if !site.reachable || !site.protected {
+				return s
+			}
+		}
+	}
+	if sitesSeen == 0 {
+		return s
+	}
+	// the only path-dependent callee on the handler's paths must be this one
+	for _, c2 := range s.bodyCalls() {
+		if c2 == call {
+			continue
+		}
+		if h := a.calleeOf(c2); h != nil {
+			if hs := a.sums[h]; hs != nil && a.decls[h] != nil && !a.lockFn[h] && !a.unlkFn[h] && (hs.obj < 0 || hs.ver < 0 || hs.errMixed) {
+				return s
+			}
+		}
+	}
+	old := a.sums[g]
+	delete(a.sums, g)
+	a.forceLk[g] = true
+	gl := a.summary(g)
+	delete(a.forceLk, g)
+	a.sums[g] = old
+	if gl == nil || gl.res == nil {
+		return s
+	}
+	merged := *gl
+	merged.cons = s.cons
+	var exits []*flow.Exit
+	for _, ex := range s.res.Exits {
+		if !ex.State.Is(c18evNonU, flow.True) {
+			exits = append(exits, ex)
+		}
+	}
+	exits = append(exits, gl.res.Exits...)
+	merged.res = &flow.Result{Fn: gl.res.Fn, At: gl.res.At, Exits: exits}
+	return &merged
 }
